@@ -839,6 +839,10 @@ func c03(c *Ctx) (*report.Result, error) {
 	checkReplayChain(c, res, "O3.11")
 	res.RuleDoc["O3.12"] = "the fan-out's target list is the requested cluster's: GetRemoteSendChansByCluster copies an entry exactly when its key's ClusterID equals the requested cluster id"
 	checkSendChansByClusterFilter(c, res, "O3.12")
+	res.RuleDoc["O3.13"] = "every source's acknowledgement is forwarded before the translated entries are dropped: in recvAck's retry loops the remaining count is decremented together with the done-mark of that source and marked sources are skipped (same analysis as O1.3) - a source counted twice ends the loop while another source was never served, and its entries are discarded unacknowledged"
+	if g := resolve(c, res, "O3.13", anchor{"proxy", "*proxyStreamSender", "recvAck"}); g != nil {
+		checkRetryLoopBookkeeping(c, res, "O3.13", g, 2)
+	}
 	checkNoSwallowedErrors(c, res, "O3.8", []string{"proxy/proxy_streams.go"})
 	res.RuleDoc["O3.9"] = "relay loops pass every message on: in every loop that takes messages from a stream or channel and forwards them, no path from the take to the next take avoids every stream Send / channel send / Deliver*ToShardOwner (a forwarding loop that runs zero times, the wrong-kind edges of a type assertion and a return that ends the stream are not bypasses; the ack aggregator sendAck is the reviewed exception)"
 	checkRelayLoops(c, res, "O3.9", []string{"proxy/proxy_streams.go", "proxy/intra_proxy_router.go"}, 5)
